@@ -384,6 +384,8 @@ def c16_case(args):
             with cov:
                 it = eng.explore(lambda: _decode_reset(serde, fcp, top, data, work), assume)
                 for pi, (kind, out, pc) in enumerate(it):
+                    if res["violations"]:
+                        break   # the case is red: no need to enumerate the remaining paths
                     oid = f"{ob_id}|path{pi}"
                     if kind == "exc" and isinstance(out, WorkBound):
                         decide(eng, pc, z3.BoolVal(True), prop="C16", ob_id=oid, res=res, known=known,
@@ -402,13 +404,13 @@ def c16_case(args):
         finish_engine(res, eng)
 
     for ii, inst in enumerate(instances(schema, tier)):
-        if _red(res):
+        if _red(res) or res["violations"]:
             break
         canon = refspec.canon_bytes(schema, T, inst.value)
         data = _as_symbytes(canon)
         # (a) every strict prefix of a valid encoding must be rejected
         for k in range(len(data)):
-            if _red(res):
+            if _red(res) or res["violations"]:
                 break
             def mk(m, wb, k=k):
                 cb = [m.eval(b, model_completion=True).as_long() for b in canon][:k]
@@ -424,7 +426,7 @@ def c16_case(args):
         # re-read from other bytes, so "what the prefixes announce" is no longer determined by this one count
         sites = list(_dyn_sites(schema, T, inst.value))
         for si, (path, et, obj) in enumerate(sites[-1:]):
-            if et is None or not is_fixed(schema, et):
+            if et is None or not is_fixed(schema, et) or res["violations"]:
                 continue
             from ..shapes import fixed_bits
             ebits = fixed_bits(schema, et)
@@ -453,7 +455,7 @@ def c16_case(args):
             nobl["announce"] += 1
     # (c) arbitrary buffers: whatever decode returns must fit in the bytes that were there, with bounded work
     for n in ((0, 1, 2, 3, 5, 6) if tier == "quick" else (0, 1, 2, 3, 4, 5, 6, 7, 8, 9, 12)):
-        if _red(res):
+        if _red(res) or res["violations"]:
             break
         raw = [z3.BitVec(f"b{i}", 8) for i in range(n)]
         data = _as_symbytes(raw)
@@ -464,6 +466,8 @@ def c16_case(args):
             with cov:
                 for pi, (kind, out, pc) in enumerate(
                         eng.explore(lambda: _decode_reset(serde, fcp, top, data, 64 * (n + 8)), [])):
+                    if res["violations"]:
+                        break
                     oid = f"{ob_base}|path{pi}"
 
                     def mk(m, wb, raw=raw):
